@@ -1,8 +1,6 @@
 package reporting
 
 import (
-	"strings"
-
 	"github.com/a14e/gogreement/src/zzverif/nd"
 	"golang.org/x/tools/go/analysis"
 )
@@ -52,30 +50,4 @@ func ZZC19K2Unreadable() {
 	L := nd.Int("diag_line")
 	res := r.readSourceLines("missing.go", L, 2, 1)
 	nd.Assert(len(res.content) == 0 && len(res.lineNumbers) == 0, "unreadable file: no excerpt, no failure")
-}
-
-// C19-K2c: a file that ends INSIDE the reported line, before the reported column, is shorter than expected as well (a
-// truncated read, a file rewritten between parsing and reporting): no excerpt — in particular no caret parked at the end
-// of the partial line. The position comes from the full text, ReadFile delivers a prefix of it (every cut that loses the
-// reported column, pinned).
-func ZZC19ShortRead() {
-	content := "package p\n\nfunc f(t *T) { if t != nil { t.X = 1 } }\nlast\n"
-	start3 := strings.Index(content, "func f")
-	col := strings.Index(content, "t.X") - start3 + 1
-	cut := nd.Int("cut")
-	nd.Assume(0 <= cut)
-	nd.Assume(cut < start3+col-1) // the byte before the reported column is missing: column > len(line)+1
-	cut = nd.Pin(cut)
-	fset, pos := nd.FsetFor("f.go", content, 3, col)
-	out := ""
-	pass := &analysis.Pass{
-		Fset:     fset,
-		ReadFile: func(name string) ([]byte, error) { return []byte(content[:cut]), nil },
-		Report:   func(d analysis.Diagnostic) { out = d.Message },
-	}
-	NewReporter(pass, nil).ReportViolation(zzViolation{code: "IMM01", msg: "m", pos: pos})
-	nd.Observe("got", out)
-	nd.Assert(strings.HasPrefix(out, "error: [IMM01] m\n"), "header present")
-	nd.Assert(!strings.Contains(out, " | ") && !strings.Contains(out, "^"), "a file that ends before the reported column: no excerpt, no caret")
-	nd.Assert(strings.Contains(out, zzDocURL("IMM01")), "help link present")
 }
